@@ -147,7 +147,9 @@ int cp_etrs_ver(size_t thres, const bn_t *td, const bn_t *y, size_t max,
 	bn_t l, n, u;
 	ec_t w[2];
 
-	int d = max + size - thres;
+	/* The points lie on a polynomial of degree max + size - thres through
+	 * (0, pp), so d of them determine it. */
+	int d = (thres >= 1 && thres <= size ? max + size - thres + 1 : 0);
 	bn_t *v = RLC_ALLOCA(bn_t, d);
 	bn_t *_v = RLC_ALLOCA(bn_t, d);
 	bn_t *_y = RLC_ALLOCA(bn_t, d);
@@ -158,6 +160,15 @@ int cp_etrs_ver(size_t thres, const bn_t *td, const bn_t *y, size_t max,
 	bn_null(u);
 	ec_null(w[0]);
 	ec_null(w[1]);
+
+	if (d == 0) {
+		/* The threshold is between one and the number of ring members. */
+		RLC_FREE(v);
+		RLC_FREE(_v);
+		RLC_FREE(_y);
+		RLC_FREE(_t);
+		return 0;
+	}
 
 	RLC_TRY {
 		bn_new(l);
@@ -189,28 +200,36 @@ int cp_etrs_ver(size_t thres, const bn_t *td, const bn_t *y, size_t max,
 		ec_curve_get_ord(n);
 
 		flag = 1;
-		ec_set_infty(w[0]);
-		for (i = 0; i < d; i++) {
-			for (int j = 0; j < d; j++) {
-				bn_set_dig(_v[j], 1);
-				if (j != i) {
-					bn_sub(_v[j], _y[j], _y[i]);
-					bn_mod(_v[j], _v[j], n);
+		/* Interpolating at zero through the first d points must give pp, and
+		 * through one point fewer must not (the threshold is exact). */
+		for (int k = d; k >= d - 1; k--) {
+			ec_set_infty(w[0]);
+			for (i = 0; i < k; i++) {
+				for (int j = 0; j < k; j++) {
+					bn_set_dig(_v[j], 1);
+					if (j != i) {
+						bn_sub(_v[j], _y[j], _y[i]);
+						bn_mod(_v[j], _v[j], n);
+					}
+				}
+				bn_mod_inv_sim(_v, _v, n, k);
+				bn_set_dig(v[i], 1);
+				for (int j = 0; j < k; j++) {
+					if (j != i) {
+						bn_mul(u, _y[j], _v[j]);
+						bn_mod(u, u, n);
+						bn_mul(v[i], v[i], u);
+						bn_mod(v[i], v[i], n);
+					}
 				}
 			}
-			bn_mod_inv_sim(_v, _v, n, d);
-			bn_set_dig(v[i], 1);
-			for (int j = 0; j < d; j++) {
-				if (j != i) {
-					bn_mul(u, _y[j], _v[j]);
-					bn_mod(u, u, n);
-					bn_mul(v[i], v[i], u);
-					bn_mod(v[i], v[i], n);
-				}
+			ec_mul_sim_lot(w[0], _t, v, k);
+			if (k == d) {
+				flag &= ec_cmp(w[0], pp) == RLC_EQ;
+			} else {
+				flag &= ec_cmp(w[0], pp) != RLC_EQ;
 			}
 		}
-		ec_mul_sim_lot(w[0], _t, v, d);
-		flag &= ec_cmp(w[0], pp) != RLC_EQ;
 
 		for (int i = 0; i < size; i++) {
 			ec_copy(w[0], s[i]->h);
